@@ -1465,6 +1465,101 @@ pub fn scale_cases_for(prop: &str, t: Tier, seed: u64) -> Vec<Case> {
     out
 }
 
+/// The prefetch estimate of a node start may exceed the true value by one per level (`Props/C09.approx_rank_ok`
+/// is sharp). This builds the extreme case on purpose, at the *second* level of a three-level tree: 64 symbols
+/// with three-level codes; the 16 symbols whose first digit is 0 occur 8192 times in total (node start of the
+/// first-digit-1 group on a multiple of the 2048-element sampling period), those of them whose second digit is
+/// `d1` occur 2047 times, and the first element of the first-digit-1 group has second digit `d1`: then
+/// `approx_rank(d1, 8192) = 2048` while `rank(d1, 8192) = 2047`. For the Huffman tree the digits are those of
+/// the crafted codes, which depend on the tie order: the generator fixes the tie seed, builds a tree with these
+/// 64 equally frequent symbols in-process and reads the code table from its serialised form.
+fn overshoot_cases(r: &mut Rng, out: &mut Vec<Case>) {
+    for (fam, b) in [("hqwt", 256usize), ("hqwt", 512), ("qwt", 256), ("qwt", 512)] {
+        let tie = r.next() | 1;
+        // digits (d0, d1) of every symbol 0..63
+        let mut digits: Vec<(u32, u32)> = (0..64u32).map(|v| (v >> 4, (v >> 2) & 3)).collect();
+        if fam == "hqwt" {
+            qwt::verif_hooks::set_tie_seed(tie);
+            let probe: Vec<u8> = (0..64u8).flat_map(|v| std::iter::repeat(v).take(8)).collect();
+            let t = qwt::HQWT256::<u8>::from(probe);
+            let bytes = match bincode::serialize(&t) {
+                Ok(x) => x,
+                Err(_) => continue,
+            };
+            // n, n_levels (u64 each), then codes_encode: u64 length + (u32 content, u32 len) per symbol value
+            if bytes.len() < 24 {
+                continue;
+            }
+            let ncodes = u64::from_le_bytes(bytes[16..24].try_into().unwrap()) as usize;
+            if ncodes < 64 || bytes.len() < 24 + 8 * ncodes {
+                continue;
+            }
+            let mut okc = true;
+            for v in 0..64usize {
+                let o = 24 + 8 * v;
+                let content = u32::from_le_bytes(bytes[o..o + 4].try_into().unwrap());
+                let len = u32::from_le_bytes(bytes[o + 4..o + 8].try_into().unwrap());
+                if len != 6 {
+                    okc = false;
+                    break;
+                }
+                digits[v] = ((content >> 4) & 3, (content >> 2) & 3);
+            }
+            if !okc {
+                continue;
+            }
+        }
+        for d1 in 0..4u32 {
+            let group_a: Vec<usize> = (0..64).filter(|&v| digits[v].0 == 0).collect();
+            let sub: Vec<usize> = group_a.iter().copied().filter(|&v| digits[v].1 == d1).collect();
+            let target: Vec<usize> = (0..64).filter(|&v| digits[v] == (1, d1)).collect();
+            if group_a.len() != 16 || sub.len() != 4 || target.is_empty() {
+                continue;
+            }
+            let mut cnt = vec![512usize; 64];
+            cnt[sub[0]] = 511;
+            let other = *group_a.iter().find(|v| !sub.contains(v)).unwrap();
+            cnt[other] = 513;
+            let mut v: Vec<u128> = vec![];
+            for sy in 0..64usize {
+                for _ in 0..cnt[sy] {
+                    v.push(sy as u128);
+                }
+            }
+            for k in (1..v.len()).rev() {
+                let j = r.below(k as u64 + 1) as usize;
+                v.swap(k, j);
+            }
+            // the first element whose first digit is 1 must have second digit d1
+            if let Some(first1) = v.iter().position(|&x| digits[x as usize].0 == 1) {
+                if let Some(want) = v.iter().position(|&x| digits[x as usize] == (1, d1)) {
+                    v.swap(first1, want);
+                }
+            }
+            let n = v.len();
+            let mut c = Case::new(fam);
+            c.tag(format!("fam={}", fam));
+            c.tag("estimate-overshoot");
+            c.nontrivial = true;
+            c.l(format!("cfg {} 1 8 * u8", b));
+            if fam == "hqwt" {
+                c.l(format!("tie {}", tie));
+            }
+            c.l(format!("mk 0 {} {}", fam, join(&v)));
+            if fam == "hqwt" {
+                c.l("lenschk 0");
+            }
+            for &sy in target.iter().chain(sub.iter()) {
+                for p in [n, n / 2, 8192, 8193, 1, n - 1] {
+                    c.l(format!("q 0 rank_prefetch {} {}", sy, p));
+                }
+            }
+            out.push(c);
+        }
+    }
+    qwt::verif_hooks::set_tie_seed(0);
+}
+
 fn utils_cases(r: &mut Rng, t: Tier, out: &mut Vec<Case>) {
     // select_in_word: crafted words exhaustive over (byte value, k in byte, byte position)
     let mut c = Case::new("utils");
@@ -1863,6 +1958,7 @@ pub fn cases(prop: &str, t: Tier, seed: u64) -> Vec<Case> {
                 }
                 out.push(c);
             }
+            overshoot_cases(r, &mut out);
         }
         "C10" => {
             tree_family_cases(r, t, "qwt", &["get_unchecked", "rank_unchecked", "select_unchecked", "rank_prefetch_unchecked", "get", "rank", "select"], &[], scale(t, 24, 160), &mut out);
